@@ -280,6 +280,12 @@ def run(F, rep, tier):
         rep.ok('R5.5', 'Env::insert redeclaration', 'error unless allow_redeclaration')
     else:
         rep.viol('R5.5', 'core::Env::insert|redeclare', 'redeclaration in the same scope is no longer refused', ins.loc(0))
+    writes = [c for c in ins.calls if c.target.rsplit('::', 1)[-1] == 'insert' and ('HashMap' in c.target or 'Entry' in c.target or 'hash_map' in c.target)]
+    bad_w = [w for w in writes if any(e.bb in ins.reachable_from(w.bb) for e in errs)]
+    if writes and not bad_w:
+        rep.ok('R5.5', 'Env::insert refusal is a no-op', 'no map write can be followed by the redeclaration error')
+    elif bad_w:
+        rep.viol('R5.5', 'core::Env::insert|write-before-refusal', 'Env::insert writes the variable map on a path that then raises the redeclaration error: a refused `:=` has already replaced the value, type and cell', bad_w[0].loc())
     for fn in ('core::Env::modify_existing_var', 'core::Env::try_borrow_get_var'):
         b = F.body(F.anchor(fn))
         if reads_field(b, 'parent') and any(c.target == fn for c in b.calls):
